@@ -480,7 +480,7 @@ rules:
     - authorizer: cel_true
       config:
         expressions:
-          - expression: "Request.Body != 7 && Request.URL.Query().size() >= 0 && Request.Cookie('sess') != 'x' && Request.ClientIPAddresses.size() >= 0"
+          - expression: "Request.Body() != 7 && Request.URL.Query().size() >= 0 && Request.Cookie('sess') != 'x' && Request.ClientIPAddresses.size() >= 0"
           - expression: "Request.Header('X-Nets') == '' || '10.1.2.3' in networks(Request.Header('X-Nets')) || Request.Header('X-Nets') != ''"
     - finalizer: header
       config:
